@@ -27,3 +27,10 @@ fp("dask/array/routines.py", "_tensordot", "tensordot", "dot", "vdot", "_chunk_s
 fp("dask/array/einsumfuncs.py", "einsum", "chunk_einsum")
 fp("dask/array/linalg.py", "_cumsum_blocks", "tsqr", "sfqr", "qr", "svd")
 fp("dask/array/core.py", "unify_chunks")
+
+# C30
+fp("dask/array/_array_expr/_expr.py", "ArrayExpr.optimize", "ArrayExpr.rechunk", "unify_chunks_expr", "Concatenate.chunks",
+   "FinalizeComputeArray._simplify_down")
+fp("dask/array/_array_expr/_rechunk.py", "Rechunk.chunks", "Rechunk._lower", "TasksRechunk._lower")
+fp("dask/array/_array_expr/_blockwise.py", "Blockwise._lower", "Elemwise._lower")
+fp("dask/_expr.py", "Expr.simplify", "Expr.simplify_once", "Expr.lower_once", "Expr.lower_completely", "optimize_until")
